@@ -77,4 +77,36 @@ REGISTRY = {
             "memory: linearizability is proved for programs without create_group_snapshot / rollback_group_to_snapshot (class memory-snapshot-two-locks); those two and save_message-vs-rollback are refuted with two-thread witnesses",
         ],
     },
+    "C14": {
+        "props_file": "Props/C14.v",
+        "gen": ["sites"],
+        "harness": [
+            {"bin": "log_diff", "model": False, "quick": ["--rounds", "1"], "thorough": ["--rounds", "4"]},
+        ],
+        "trusted_base": [
+            "translator tools/translate/sites.py: Rust lexer/sink extraction (tracing macros, #[error] attributes, error constructors, failure_reason, manual Display/Debug impls, String-error functions) and its expression classifier table (mirrored as data in Gen/Sites.v `classifier_table`); default class of an unmatched expression is Benign",
+            "ThirdParty class: Display/Debug of rusqlite, serde_json, tls_codec, openmls, hex, nostr, keyring errors is assumed not to embed the sensitive values (validated only dynamically by log_diff)",
+            "log_diff scenarios validate translator completeness only for the log sites they reach",
+        ],
+        "assumptions": [
+            "a sink leaks only through its interpolated arguments (static format text is not sensitive)",
+            "derive(Debug) of Ok-result types (Group, Message, Welcome ...) is outside the property's quantification (Err values, MessageProcessingResult, log records, config/secret types)",
+        ],
+    },
+    "C16": {
+        "props_file": "Props/C16.v",
+        "gen": [],
+        "harness": [
+            {"bin": "welcome_diff", "model": True, "stateful": True, "name": "welcome_diff-mem",
+             "quick": ["--backend", "mem", "--seqs", "40", "--len", "14"], "thorough": ["--backend", "mem", "--seqs", "1500", "--len", "20"]},
+            {"bin": "welcome_diff", "model": True, "stateful": True, "name": "welcome_diff-sqlite",
+             "quick": ["--backend", "sqlite", "--seqs", "15", "--len", "14"], "thorough": ["--backend", "sqlite", "--seqs", "400", "--len", "20"]},
+        ],
+        "trusted_base": [
+            "modelled, not verified: OpenMLS welcome processing (an invitation is decodable or not, matches one of the recipient's key packages or not, leads to a named state; key packages are last-resort packages that survive acceptance); validate_welcome_event is summarised by one boolean computed by the harness from how the rumor was built",
+        ],
+        "assumptions": [
+            "accept_welcome is a deliberate user action (consent): accepting a stale invitation for a group one is already active in is outside the 'cannot disturb' theorems, which quantify over process_welcome and decline_welcome",
+        ],
+    },
 }
